@@ -65,7 +65,11 @@ Definition plan_split (s : seq) (rr : list region) (circular : bool) : out (list
       slice_pairs s ([0] ++ heads ++ [zlen (residues s)])
   | _ =>
     let heads := unique_sorted (map (fun r => Z.min (region_head r) (region_tail r)) rr) in
-    if circular then slice_pairs s ([last heads 0] ++ heads)
+    if circular then
+      match heads with
+      | [h] => x <- seq_rotate s (- h) ;; Ok [x]   (* one distinct cut: re-origin there *)
+      | _ => slice_pairs s ([last heads 0] ++ heads)
+      end
     else slice_pairs s ([0] ++ heads ++ [zlen (residues s)])
   end.
 
